@@ -190,6 +190,45 @@ def removeTautologies [DecidableEq α] (p : Aff α) : Aff α :=
     let keep := p.rows.filter (fun rb => !isZeroVec rb.1)
     if keep.isEmpty then unbounded p.indim else Aff.ofRows p.indim keep
 
+/-- `r` is a positive multiple of `r'` (row with its bias): what "equal after `normalize`" means in exact arithmetic.
+    A row with zero normal is a multiple of nothing (its norm is 0 and the code's quotient is not a number). -/
+def posMultiple [DecidableEq α] [Div α] (r r' : List α × α) : Bool :=
+  match (r.1.zip r'.1).find? (fun p => !(p.2 == 0)) with
+  | none => false
+  | some (a, a') =>
+    let c := a / a'
+    !decide (c ≤ 0) && r.1 == smul c r'.1 && r.2 == c * r'.2
+
+/-- rows are dropped when an *earlier* row (dropped or not) is equivalent -/
+def dedupAux (eqv : List α × α → List α × α → Bool) :
+    List (List α × α) → List (List α × α) → List (List α × α)
+  | _, [] => []
+  | seen, r :: rs =>
+    if seen.any (eqv r) then dedupAux eqv (seen ++ [r]) rs else r :: dedupAux eqv (seen ++ [r]) rs
+
+def absV (a : α) : α := if 0 ≤ a then a else -a
+def maxV (a b : α) : α := if a ≤ b then b else a
+
+/-- `relative_eq(a, b, epsilon = eps, max_relative = eps)` of the `approx` crate -/
+def relEq (eps a b : α) : Bool :=
+  decide (absV (a - b) ≤ eps) || decide (absV (a - b) ≤ maxV (absV a) (absV b) * eps)
+
+/-- the comparison inside `remove_duplicate_rows`: `normalize` divides a row by its norm only when the norm exceeds
+    `eps`; two normalised rows are compared as directions (exactly: positive multiples — the code compares rounded
+    quotients), two rows that were left alone entry by entry with `relative_eq`, and a normalised row never equals one
+    that was left alone (one of them has an entry of size ≥ 1/√n, the other only entries ≤ eps) -/
+def dupEqv [DecidableEq α] [Div α] (eps : α) (r r' : List α × α) : Bool :=
+  let big := !decide (dot r.1 r.1 ≤ eps * eps)
+  let big' := !decide (dot r'.1 r'.1 ≤ eps * eps)
+  if big && big' then posMultiple r r'
+  else if !big && !big' then
+    r.1.length == r'.1.length && (r.1.zip r'.1).all (fun p => relEq eps p.1 p.2) && relEq eps r.2 r'.2
+  else false
+
+/-- `remove_duplicate_rows`; `eps` is `f64::EPSILON` in the code, `0` is the exact comparison -/
+def removeDuplicateRows [DecidableEq α] [Div α] (eps : α) (p : Aff α) : Aff α :=
+  Aff.ofRows p.indim (dedupAux (dupEqv eps) [] p.rows)
+
 /-- the four `PolyRepr` conversions -/
 inductive PRepr | leqBias | biasLeqZero | geqBias | biasGeqZero
 deriving DecidableEq
